@@ -629,6 +629,24 @@ func (ev *evaluator) quant(x *EQuant) Val {
 		decl = append(decl, fmt.Sprintf("(%s %s)", a.op, a.sort))
 		bound = append(bound, a.op)
 	}
+	// explicit patterns: forall ... :: triggers(t1, t2, ...) ==> body   (one multi-pattern)
+	if bin, ok := x.Body.(*EBin); ok && bin.Op == "==>" {
+		if call, ok := bin.X.(*ECall); ok {
+			if id, ok := call.Fun.(*EIdent); ok && id.Name == "triggers" {
+				var pats []string
+				for _, a := range call.Args {
+					pats = append(pats, n.term(n.eval(a)).String())
+				}
+				body := n.evalBool(bin.Y)
+				qn := "exists"
+				if x.Forall {
+					qn = "forall"
+				}
+				ann := &T{op: "!", args: []*T{body, atom(":pattern ("+strings.Join(pats, " ")+")", "Attr")}, sort: "Bool"}
+				return Val{t: app(qn+" ("+strings.Join(decl, " ")+")", "Bool", ann), typ: types.Typ[types.Bool]}
+			}
+		}
+	}
 	body := n.evalBool(x.Body)
 	q := "exists"
 	if x.Forall {
